@@ -727,6 +727,7 @@ func ProfileByName(name string) Profile {
 		p.PExtra = 0
 		p.PTopPT = 45
 		p.PPre = 0
+		p.PCustom = 12
 		p.PPT = 20
 		p.PCoercer = 0
 		p.PTests = 75
